@@ -2971,10 +2971,6 @@ func setExec(n *node) {
 				set(n.fnext)
 			}
 		}
-		if n.gen == nil {
-			// Nothing to generate, e.g. for a node of a type expression.
-			return
-		}
 		n.gen(n)
 	}
 
